@@ -8,7 +8,7 @@ CHECKS = {
          "3.C01", "Metamorphic runtime monitor: every public operation is executed on 60-digit object vectors for every coordinate-system signature of the same geometric operands; canonicalised results must agree with the all-Cartesian signature (1e-35; violation >= 1e-20); a tap on _from_signature proves all 2404 dispatch variants were reached. Held = on the sampled operands of every stratum; the real line is sampled, signatures are exhaustive. A float64 layer repeats the comparison on well-conditioned float64 objects (collinear and exact-zero strata included) at 1e-9 x conditioning.",
          "mpmath correctness; MpLib adapter mirrors NumPy only at singular points (not judged); baseline signature is Cartesian (shared defects are C02's)"),
  "C02": ("reference-model monitor (independent mpmath model of the documentation) on 60-digit and float64 runs",
-         "3.C02", "Reference-model runtime monitor: each operation's result on 60-digit objects (all signatures) and on float64 object/NumPy vectors (exact binary inputs, well-conditioned core) is compared with an independent executable model of the documented definitions; every catalogued call is repeated with its arguments passed under the documented keyword names, and the live signatures (names, order, kinds, defaults) of all 528 public methods are compared with the pinned documented ones.",
+         "3.C02", "Reference-model runtime monitor: each operation's result on 60-digit objects (all signatures) and on float64 object/NumPy vectors (exact binary inputs, well-conditioned core) is compared with an independent executable model of the documented definitions; every catalogued call is repeated with its arguments passed under the documented keyword names, and the live signatures (names, order, kinds, defaults) of all 528 public methods are compared with the pinned documented ones; argument objects (matrix mappings, arrays) changed in place between two calls must be read afresh.",
          "the model's reading of the documentation (DESIGN 2.2); float64 judged on the well-conditioned core at 1e-9"),
  "C03": ("differential monitor: object vs NumPy vs Awkward on identical float64 inputs across shapes/layouts/routes/pairings", "3.C03",
          "Cross-backend differential runtime monitor: every operation on 8-element batches as object calls, NumPy arrays (6 shapes, strided views, mixed with objects) and Awkward arrays/records (9 layouts, 3 construction routes incl. hand-named momentum records, mixed pairings); element i must equal the object result (1e-11), shapes/list structure/missing positions/record names preserved. Physical layout twins of the same logical array (ListArray with gaps, IndexedArray, non-zero offsets, byte/bit-masked and unmasked option nodes, strided leaves; big-endian / padded / strided / float32 / int NumPy columns), extra fields deeper than the vectors, out= forms of the ufuncs with several layouts of the out array, arrays re-read after in-place field assignment; alternate shards run with vector.register_awkward().",
@@ -32,10 +32,10 @@ CHECKS = {
          "Runtime oracle: numpy.sum/.sum()/count_nonzero and ak.sum/ak.count/ak.count_nonzero on vector arrays in all 20 systems must equal the same plain reducer applied to the elements' Cartesian components from the object backend, for every axis/keepdims/mask_identity, empty and missing lists; exact for integer Cartesian storage; unsupported arguments raise.",
          "1e-9 tolerance for non-integer storage"),
  "C19": ("differential oracle against the plain structured ndarray for every index/view/copy/pickle action", "3.C19",
-         "Runtime oracle: every integer index, slice, mask, fancy index, reshape/T/ravel/view/copy, field and synonym index, asarray/asanyarray/__array__, pickle protocol 0-5 and copy is applied to the vector array and to the plain structured array; classes, systems, flavors, bytes and continued functionality are compared.",
+         "Runtime oracle: every integer index, slice, mask, fancy index, reshape/T/ravel/view/copy, field and synonym index, asarray/asanyarray/__array__, pickle protocol 0-5 and copy is applied to the vector array and to the plain structured array; classes, systems, flavors, bytes and continued functionality are compared; extra-field / float32 / int / big-endian / Fortran / strided / empty arrays, NumPy-integer and 0-d indices, iteration, re-casts to other vector classes, repeated array forms of an object, and a history of coordinate-class constructions with non-canonical dtypes.",
          "bitwise comparison"),
  "C20": ("global-state snapshots at every dispatch (tap hook) and around every call; sys.monitoring failpoints in all 82 dispatch functions; 16-thread stress with yield injection vs sequential run", "3.C20",
-         "State monitor + history/determinism checker: process state (numpy error state/errcall/print options, warnings filters, awkward.behavior, registration flag, dispatch maps, class links) is compared before/after every dispatch and call under 5 prior configurations, on returning, raising and singular calls; registration idempotence in fresh processes; an exception injected at every line of every dispatch function; K-call lists run by 16 threads with forced GIL hand-offs must reproduce the sequential results bit-for-bit; racing lazy first imports from fresh processes.",
+         "State monitor + history/determinism checker: process state (numpy error state/errcall/print options, warnings filters, awkward.behavior, registration flag, dispatch maps, class links) is compared before/after every dispatch and call under 5 prior configurations, on returning, raising and singular calls; registration idempotence in fresh processes; an exception injected at every line of every dispatch function; K-call lists run by 16 threads with forced GIL hand-offs must reproduce the sequential results bit-for-bit; racing lazy first imports from fresh processes; the same call lists (with differently named extra fields) re-run on rebuilt operands, in another order, and in four fresh processes each in its own order (results compared call by call).",
          "schedules are those the stress produced (counted in the evidence); CPython GIL"),
  "C16": ("snapshot monitor: bit-exact operand snapshots before/after every call of the cross-backend sweep + dedicated actions", "3.C16",
          "Invariant monitor: operands (object slots, NumPy root buffers/dtype names/shape/strides/class, Awkward form+buffers+behavior) are snapshotted before and after every catalogued call in every array variant, and around operators, numpy functions, reductions, conversions with keywords, aliasing a.op(a), read-only arrays, pickle/copy/view; non-vector array operands (weights, exponents, angles, keyword arrays) and constructor inputs (arrays, dicts, dtype objects, behavior mappings) are operands too.",
@@ -62,7 +62,7 @@ CHECKS = {
          "Runtime oracle: reflexivity, symmetry, != is not ==, same-system == / isclose against stored coordinates, implication and monotonicity in tolerances, operators = methods = numpy functions, arrays = objects element-wise, allclose = all(isclose).",
          "NaN-free finite operands; isclose judged off the tolerance boundary"),
  "C13": ("invariant hook on the dispatch layer (closed bounds on every dispatch) + boundary workload + predicate oracles with margins", "3.C13",
-         "Invariant-at-a-hook monitor: every dispatch of phi/deltaphi/theta/deltaangle/rho/mag/rho2/mag2/t2/t during the workload is range-checked; boundary strata on object/NumPy/Awkward/60-digit; causal and angle predicates judged against exact cosines/tau2 outside a 1e-9 margin.",
+         "Invariant-at-a-hook monitor: every dispatch of phi/deltaphi/theta/deltaangle/rho/mag/rho2/mag2/t2/t during the workload is range-checked; boundary strata on object/NumPy/Awkward/60-digit; causal and angle predicates judged against exact cosines/tau2 outside a 1e-9 margin; the stored phi/theta/rho of every vector returned by a vector-valued operation (operands near the +-pi cut) are range-checked too.",
          "strict/sign contracts judged only outside the margin; magnitudes within [1e-150, 1e150]"),
 }
 PENDING = []
